@@ -128,7 +128,9 @@ func (r *dataReader) Read(b []byte) (n int, err error) {
 				r.state = stateBeginLine
 				break
 			}
-			r.state = stateData
+			if c != '\r' {
+				r.state = stateData
+			}
 		case stateData:
 			if c == '\r' {
 				r.state = stateCR
